@@ -1120,9 +1120,10 @@ class ParserField:
         if error_option == context.options.EXCLUDE:
             if self.is_required(context.options):
                 # required field cannot be excluded
+                # (collected: it is reported, as refused and not as left out - the fields that depend on it do not lack it)
                 context.handle_error(error)
-            else:
-                context.collect_waring(error.formatted_message)
+                return unprovided
+            context.collect_waring(error.formatted_message)
             # the field counts as not given (e.g. it does not demand its dependencies)
             context.excluded_fields.add(self.name)
             # return default if provided
